@@ -15,7 +15,7 @@ RULE = ("random shots (all tables, look +-45 deg, cant, twist right/left/none, d
         "altitude stations and vacuum, winds) fired plain / with extra data / with a time step / into a limit (RangeError "
         "rows); every row created is checked by the contract; a case = (shot, request); non-trivial when the look angle "
         "is non-zero or the twist is non-zero with dimensions present")
-MUST_OBSERVE = ["requests_with_step_beyond_range", "contract_evaluations", "rows_contract_checked", "rows_api_checked", "rows_x0", "rows_event",
+MUST_OBSERVE = ["rows_behind_the_muzzle", "requests_with_step_beyond_range", "contract_evaluations", "rows_contract_checked", "rows_api_checked", "rows_x0", "rows_event",
                 "rows_terminal_rangeerror", "shots_twist_right", "shots_twist_left", "shots_twist_none",
                 "shots_no_dimensions", "shots_inclined", "spin_drift_rows_nonzero", "twin_runs", "mach_local_checks", "shots_powder_sensitivity_on"]
 ASSUMPTIONS = ["energy accepted between w v^2/450400 (documented constant) and the exact w v^2/(2*7000*32.17405)",
@@ -143,6 +143,12 @@ def check_case(ctx, case):
         conds.append(("spin_drift", spin_condition(spec, sg)))   # the value handed to every row vs Litz/Miller
     look_rad = math.radians(spec.get("look_deg", 0.0))
 
+    def c_behind(a, _r):
+        if a["range_vector"].x < 0:
+            ctx.count("rows_behind_the_muzzle")
+        return None
+    conds.append(("behind", c_behind))
+
     def c_look(a, _r):      # the look angle every row is built with is the shot's (the geometry conditions above take it from here)
         return None if abs(a["look_angle"] - look_rad) <= 1e-12 else f"row built with look angle {a['look_angle']!r} rad, the shot's is {look_rad!r}"
     conds.append(("look_angle", c_look))
@@ -258,6 +264,16 @@ def gen_case(rng):
         # a step beyond the range: the muzzle row plus the row the solver adds so that there are at least two
         req["range_ft"] = rng.choice([100.0, 300.0, 450.0])
         req["step_ft"] = req["range_ft"] * rng.choice([1.5, 2.0, 4.0])
+    if rng.random() < 0.04:
+        # blown back behind the muzzle: a near-vertical launch into a strong head wind; rows recorded on time (and the terminal row of
+        # the range error) have a negative down-range distance - their adjustments are still atan(offset / distance)
+        kind = "time"
+        s["look_deg"], s["zero_deg"], s["cant_deg"] = 0.0, 0.0, 0.0
+        s["rel_deg"] = round(rng.uniform(88.5, 89.9), 2)
+        s["mv_fps"] = round(rng.uniform(600, 1200), 0)
+        s["winds"] = [[round(rng.uniform(40, 110), 1), 180.0, None]]
+        s.pop("_restate", None)
+        req = {"range_ft": 600.0, "step_ft": 60.0, "extra": rng.random() < 0.5, "time_step": 0.5}
     case = {"shot": s, "request": req, "twin": rng.random() < 0.5}
     if kind == "limit":
         case["config"] = {"cMinimumVelocity": rng.choice([800.0, 1500.0]), "cMaximumDrop": rng.choice([-3.0, -30.0, -15000.0])}
